@@ -137,7 +137,7 @@ def _df_k2(k2,p,nu1,TOL):
     # returned value equals `p`.
     # `fdtr` returns the integral of F probability density from -infty to `x`
     def fn(nu2):
-        x = k2**2 * nu2/ ( nu1*(nu2+1) )  
+        x = k2*k2 * nu2/ ( nu1*(nu2+1) )  
         # return pf(x,nu1,nu2) - p 
         return special.fdtr(nu1,nu2,x) - p 
     
